@@ -476,6 +476,9 @@ var c10LookBoolean = [][]string{
 	{"a|b", "a | b", "a|A", "a | A", "A|a"},
 	{"a>1", "a > 1", "a>-1", "a > -1", "a>- 1", "a >= 1", "a>=1", "a> =1"},
 	{"A", "a", "X", "x"},
+	// a Number token denotes the double nearest to its spelling, however many digits it has
+	{"1.14 = number('1.14')", "1.14=number('1.14')", "4.56 = number('4.56')", "0.1234567890123456789 = number('0.1234567890123456789')", "3.14159265358979323846=number('3.14159265358979323846')",
+		"12345678901234567890 = number('12345678901234567890')", "0.00000000000000000000001 = number('0.00000000000000000000001')", "1.140 = 1.14", "01.14 = 1.14", "1.14 = 1.1400000000000001"},
 	// a back-slash is an ordinary character of a literal, also as its last one (there are no escapes in XPath literals)
 	{"t='a\\'", "t = 'a\\'", "t=\"a\\\"", "t='a\\' or t='zz'", "t=\"a\\\" or t=\"zz\"", "t='\\'", "t='a\\b'", "t=\"it's\"", "t='say \"x\"'", "t=concat('a', '\\')"},
 }
